@@ -144,7 +144,16 @@ def one_trace(tid, rng, thorough):
     with warnings.catch_warnings():
         warnings.simplefilter("ignore")
         try:
-            ret = model.fit(Xfit, y, w if weighted else None)
+            yfit, wfit = y, (w if weighted else None)
+            if rng.random() < 0.3:
+                # targets and weights as columns of a shuffled frame: pandas Series whose labels are not positions
+                import pandas
+                labels_ = list(range(n))
+                rng.shuffle(labels_)
+                yfit = pandas.Series(numpy.asarray(y), index=labels_)
+                wfit = pandas.Series(numpy.asarray(w), index=labels_) if weighted else None
+                t["sig"] += " series"
+            ret = model.fit(Xfit, yfit, wfit)
         except Exception as e:
             t.update(cell=[1] * n, cls=[0] * n, ev=[dict(a="raised", err=repr(e)[:120])])
             return t
